@@ -45,9 +45,15 @@ def plan(tier, seed):
                 units.append(dict(hfile='attach.py', fname='c09', args=(ci, nb, nc, (0,) * (nb + nc), bi, ['', ' t'][bi % 2], nm)))
                 units.append(dict(hfile='attach.py', fname='c09', args=(ci, nb, nc, (1,) + (0,) * (nb + nc - 1), bi, '', nm)))
             if ci != 6:
-                for tail in [' [b]', ' [0,1)', '\n[x', '\t]y', ' [b]{c}']:
+                for tail in [' [b]', ' [0,1)', '\n[x', '\t]y', ' [b]{c}', ' ', '\n', '\t \n']:
                     bi += 1
                     units.append(dict(hfile='attach.py', fname='c09', args=(ci, nb, nc, (0,) * (nb + nc), bi, tail, 1)))
+    for ci in ctxs:
+        if ci == 6:
+            continue
+        for sepn in (1, 2):
+            for first in range(3):
+                units.append(dict(hfile='attach.py', fname='c09_trailing', args=(ci, sepn, first)))
     return dict(units=units,
                 bounds={'groups': 'bracket-then-brace shapes %r' % (shapes,), 'separator_lengths': '%r per position, total <= %d, at most 2 non-empty' % (lens, cap),
                         'separators': 'every character any code point except \\ { } $ %% [ ] NUL DEL (first separator not starting with a letter or *); LF and CR both count as line breaks',
